@@ -443,8 +443,8 @@ def equalsFuel : Nat → EqRec
         | .map e, .smap kx xs, .smap ky ys =>
           if xs.length == ys.length then (equalsMap rec' e kx xs ky ys false).map accVal else .ok (boolVal false)
         | .set e, .sset ix xs, .sset iy ys =>
-          -- any member of either set that is not wholly known → unknown (/repo 3501ac3); else mutual inclusion
-          if xs.any (fun p => !p.whollyKnown) || ys.any (fun p => !p.whollyKnown) then .ok unkBool
+          -- any unknown member in either set → unknown; else mutual inclusion
+          if xs.any isUnkPayload || ys.any isUnkPayload then .ok unkBool
           else
             match setIncl rec' e ix xs iy ys, setIncl rec' e iy ys ix xs with
             | .ok p, .ok q => .ok (boolVal (p && q))
